@@ -253,6 +253,49 @@ def run(chk):
                               % (v, pid, got[0], got[1], login_tab.get(pid)), {'version': v, 'id': pid})
                 break
     chk.extra['state_handover_probes'] = handovers
+    # ---- a version the application declares supported at run time (a record appended to
+    #      KNOWN_MINECRAFT_VERSION_RECORDS + initglobals(use_known_records=True)): its tables are total and injective
+    #      too, and - being later than every id switch in the library - equal to the latest shipped version's
+    latest = mc.KNOWN_PROTOCOL_VERSIONS[-1]
+    latest_rel = max(v for v in mc.KNOWN_PROTOCOL_VERSIONS if v < 0x40000000)
+    added = [mc.Version('verif-next-release', latest_rel + 1, True), mc.Version('verif-next-snapshot', 0x40000000 + 4000, True)]
+    before = {(t['st'], t['dir']): t for t in tab}
+    ref_for = {added[0].protocol: latest if latest < 0x40000000 else latest_rel, added[1].protocol: None}
+    try:
+        mc.KNOWN_MINECRAFT_VERSION_RECORDS.extend(added)
+        mc.initglobals(use_known_records=True)
+        tab3, _ = tables(mc, [a.protocol for a in added])
+        for t in tab3:
+            chk.evaluations += 1
+            chk.case(('table-added-at-run-time', t['v'], t['st'], t['dir']))
+            seen = {}
+            for x in t['ids']:
+                if not x['isint'] or x['id'] < 0:
+                    chk.violation('idtable:run-time-version:not-total', 'after protocol %d was added at run time, %s/%s: %s has no '
+                                  'non-negative integer id' % (t['v'], t['st'], t['dir'], x['cls']), {'entry': t})
+                    break
+                if x['id'] in seen:
+                    chk.violation('idtable:run-time-version:collision', 'after protocol %d was added at run time, %s/%s: %s and %s share '
+                                  'id 0x%02X' % (t['v'], t['st'], t['dir'], seen[x['id']], x['cls'], x['id']), {'entry': t})
+                    break
+                seen[x['id']] = x['cls']
+            ref = ref_for[t['v']] and [u for u in tab if u['v'] == ref_for[t['v']] and (u['st'], u['dir']) == (t['st'], t['dir'])]
+            if ref and [(x['cls'], x['id']) for x in ref[0]['ids']] != [(x['cls'], x['id']) for x in t['ids']]:
+                chk.violation('idtable:run-time-version:differs-from-latest', 'after protocol %d was added at run time, its %s/%s table '
+                              'differs from protocol %d' % (t['v'], t['st'], t['dir'], ref_for[t['v']]), {'entry': t})
+        # and the shipped versions' tables are what they were
+        tab4, _ = tables(mc, [v for v in supv[-3:]] + [supv[0]])
+        for t in tab4:
+            ref = [u for u in tab if (u['v'], u['st'], u['dir']) == (t['v'], t['st'], t['dir'])][0]
+            if [(x['cls'], x['id']) for x in ref['ids']] != [(x['cls'], x['id']) for x in t['ids']]:
+                chk.violation('idtable:run-time-version:changes-shipped', 'after versions were added at run time the %s/%s table of '
+                              'protocol %d changed' % (t['st'], t['dir'], t['v']), {'entry': t})
+    finally:
+        for a in added:
+            if a in mc.KNOWN_MINECRAFT_VERSION_RECORDS:
+                mc.KNOWN_MINECRAFT_VERSION_RECORDS.remove(a)
+        mc.initglobals(use_known_records=True)
+    chk.extra['versions_added_at_run_time'] = [a.protocol for a in added]
     chk.sample({'v': tab[-8]['v'], 'st': tab[-8]['st'], 'dir': tab[-8]['dir'], 'ids': tab[-8]['ids'][:5]})
     play = [t for t in tab if t['v'] == 757 and t['st'] == 'play' and t['dir'] == 'clientbound'][0]
     chk.sample({'v': 757, 'st': 'play', 'dir': 'clientbound', 'n_classes': len(play['ids']), 'first': play['ids'][:4]})
